@@ -193,9 +193,21 @@ Definition on_grid (tol : Q) (tempo : list tpoint) (t : Q) : bool :=
       let x := frac ((t - fst a) / bl) in
       Qle_bool (Qabs (x - snap_frac tbl x) * bl) tol
   end.
-Definition grid_ok (tol extra : Q) (tempo : list tpoint) (t t' : Q) : bool :=
-  if on_grid tol tempo t then q_within (tol + tol + extra) t' t
-  else q_within (bl_near tempo t / 192 + tol + extra) t' t.
+(* a tempo point is itself snapped relative to its predecessor: when it is off that grid it moves by up to 1/192 beat of
+   the predecessor's tempo, and so does everything after it *)
+Fixpoint disp_go (tol : Q) (prev : tpoint) (l : list tpoint) (t : Q) : Q :=
+  match l with
+  | [] => 0
+  | p :: r => if Qle_bool (fst p) t
+              then (if on_grid tol [prev] (fst p) then 0 else 60000 / snd prev / 192) + disp_go tol p r t
+              else 0
+  end.
+Definition tempo_disp (tol : Q) (tempo : list tpoint) (t : Q) : Q :=
+  match tempo with [] => 0 | p :: r => Qred (disp_go tol p r t) end.
+Definition grid_ok (tol extra : Q) (tempo : list tpoint) (tempo_point : bool) (t t' : Q) : bool :=
+  let d := tempo_disp tol tempo t in
+  if tempo_point || on_grid tol tempo t then q_within (tol + tol + extra + d) t' t
+  else q_within (bl_near tempo t / 192 + tol + extra + d) t' t.
 
 (* StepMania writer: a measure has at most 384 rows (a finer position is truncated to the row before it: < 1/96 beat) and
    tempo beats are printed with two decimals (0.005 beat at each change of beat length).  Exact regime: every object on
@@ -235,8 +247,8 @@ Definition time_rule (tol : Q) (b : fmt) (src : timeline) (tempo_point : bool) (
   match b with
   | FOsu => if tempo_point then q_within tol t' t else trunc_ok tol t t'
   | FQua => trunc_ok tol t t'
-  | FSM => grid_ok tol (sm_extra tol src t) (tl_tempo src) t t'
-  | FBms => grid_ok tol 0 (tl_tempo src) t t'
+  | FSM => grid_ok tol (sm_extra tol src t) (tl_tempo src) tempo_point t t'
+  | FBms => grid_ok tol 0 (tl_tempo src) tempo_point t t'
   | FO2j => false
   end.
 Definition expected_ok (tol e : Q) (b : fmt) (src tgt : timeline) : bool :=
